@@ -92,6 +92,34 @@ fn real_main() {
         }
         return;
     }
+    if cmd == "trace" {
+        // development aid: run FILE.simf with the witness JSON FILE.wit under the trace machine
+        // and print the observed events in order
+        let text = std::fs::read_to_string(&a[2]).expect("program file");
+        let wit: simfony::WitnessValues = a.get(3).filter(|f| !f.starts_with("--")).map(|f| serde_json::from_str(&std::fs::read_to_string(f).expect("witness file")).expect("witness json")).unwrap_or_default();
+        let debug = a.iter().any(|x| x == "--debug");
+        let built = match props::common::build(&text, &simfony::Arguments::default(), debug) {
+            Ok(b) => b,
+            Err(_) => {
+                println!("does not compile");
+                return;
+            }
+        };
+        match pipeline::satisfy(&built.compiled, &wit, None) {
+            bridge::Outcome::Ok(sat) => {
+                let rep = pipeline::examine_redeem(&sat, &built.commit.cmr, &cx.env, Some(&mut cx.jets), if debug { Some(built.compiled.debug_symbols()) } else { None });
+                println!("exec: {:?}  decode ok: {}", rep.exec, rep.decode.is_ok());
+                if let Some(t) = &rep.trace {
+                    for (i, e) in t.events.iter().enumerate() {
+                        println!("{i}: {}", e.brief());
+                    }
+                    println!("result: {:?}", t.result);
+                }
+            }
+            o => println!("satisfy: {}", o.map(|_| ()).brief()),
+        }
+        return;
+    }
     if cmd == "show" {
         // print one generated program (development aid)
         let i: u64 = arg("--case").and_then(|s| s.parse().ok()).unwrap_or(0);
